@@ -372,6 +372,44 @@ fn check(ti: usize, placement: usize, seq: &[Inst]) -> CaseResult {
     }
 }
 
+/// Hand-written (reuse, written-out) pairs outside the template table: witnesses found by reviewers.
+fn scenario_pairs() -> Vec<(&'static str, &'static str, &'static str)> {
+    vec![
+        ("template-own-resize", r##"<svg><specs><rect id="t" wh="$s" dw="2" dh="25%"/></specs><reuse href="#t" s="4"/></svg>"##, r##"<svg><rect wh="4" dw="2" dh="25%" class="t"/></svg>"##),
+        ("template-own-centre", r##"<svg><specs><rect id="t" cx="0" cy="0" wh="$s"/></specs><reuse href="#t" s="4"/></svg>"##, r##"<svg><rect cx="0" cy="0" wh="4" class="t"/></svg>"##),
+        ("template-line-by-end-points", r##"<svg><specs><line id="t" x1="0" y1="0" x2="$a" y2="2"/></specs><reuse href="#t" a="3" x="10" y="20"/></svg>"##, r##"<svg><line x1="10" y1="20" x2="13" y2="22" class="t"/></svg>"##),
+        ("template-text-placed", r##"<svg><specs><text id="t" text="$label"/></specs><reuse href="#t" label="hi" x="30" y="40"/><reuse href="#t" label="ho" x="60" y="40"/></svg>"##, r##"<svg><text x="30" y="40" text="hi" class="t"/><text x="60" y="40" text="ho" class="t"/></svg>"##),
+        ("reuse-of-reuse-placed", r##"<svg><specs><g id="r"><rect wh="$s"/></g><reuse id="q" href="#r" s="4"/></specs><reuse href="#q" x="10"/><reuse href="#q" y="10"/></svg>"##, r##"<svg><g transform="translate(10, 0)" class="q r"><rect wh="4"/></g><g transform="translate(0, 10)" class="q r"><rect wh="4"/></g></svg>"##),
+        ("reuse-of-reuse-in-specs", r##"<svg><specs><rect id="r" wh="$s"/><reuse id="q" href="#r" s="4"/></specs><reuse href="#q"/></svg>"##, r##"<svg><rect wh="4" class="q r"/></svg>"##),
+        ("defaults-apply-to-instance", r##"<svg><defaults><rect rx="2" class="d"/></defaults><specs><rect id="t" wh="$s"/></specs><reuse href="#t" s="3"/></svg>"##, r##"<svg><defaults><rect rx="2" class="d"/></defaults><rect wh="3" class="t"/></svg>"##),
+    ]
+}
+
+fn check_pair(name: &str, a: &str, b: &str) -> CaseResult {
+    let cfg = Cfg::plain();
+    let (oa, ob) = (run_str(a, &cfg), run_str(b, &cfg));
+    let case = json!({"scenario": name, "with_reuse": a, "written_out": b});
+    let mut viol = None;
+    let mut mk = |clause: &str, detail: String| {
+        viol = Some(Violation { clause: clause.into(), signature: format!("C18/scenario/{name}/{clause}"), case: case.clone(), detail });
+    };
+    match (&oa, &ob) {
+        (Outcome::Panic(x), _) | (_, Outcome::Panic(x)) => mk("panic", x.clone()),
+        (Outcome::Ok(x), Outcome::Ok(y)) => match (xmlref::parse(x, Mode::Document), xmlref::parse(y, Mode::Document)) {
+            (Ok(ex), Ok(ey)) => {
+                let (sx, sy) = (normalise(ex), normalise(ey));
+                if sx != sy {
+                    let at = sx.iter().zip(sy.iter()).position(|(p, q)| p != q).unwrap_or(sx.len().min(sy.len()));
+                    mk("differs-from-written-out", format!("with reuse:  {a}\nwritten out: {b}\nfirst differing event #{at}:\n  reuse:       {:?}\n  written out: {:?}", sx.get(at), sy.get(at)));
+                }
+            }
+            _ => mk("unparsable-output", "not well-formed".into()),
+        },
+        (x, y) => mk("one-side-fails", format!("with reuse:  {a}\n  -> {}\nwritten out: {b}\n  -> {}", clip(&x.brief(), 300), clip(&y.brief(), 300))),
+    }
+    CaseResult { case_hash: hash64(&a), nontrivial: viol.is_none(), outcome_hash: hash64(&format!("{oa:?}")), executions: 2, violation: viol }
+}
+
 pub fn run(tier: Tier) -> i32 {
     let mut rep = Report::new("C18", tier, "translation_validation");
     // the quick tier explores what used to be the thorough space (it takes seconds); `deep` adds the wider bounds
@@ -415,6 +453,9 @@ pub fn run(tier: Tier) -> i32 {
     }
     rep.absorb("programs", st);
     rep.assume("x/y placement is asserted only where the statement defines it: shapes whose box starts at the origin (rect, text) and groups/symbols (translation); circle/polyline/line templates are instantiated without placement");
+    let pairs = scenario_pairs();
+    let st = run_space(pairs.len(), |i| check_pair(pairs[i].0, pairs[i].1, pairs[i].2));
+    rep.absorb("scenarios", st);
     rep.finish()
 }
 
